@@ -30,7 +30,8 @@ RULE = (
     "against an independent Yellow-Paper evaluation of the guard; mixed Bool/word bitwise guards `BITOP(cmp(a,c), w(y)) != 0` (AND/OR/XOR of a "
     "comparison result with y, y & mask, y << k, y >> k, both operand orders) judged the same way; multi-path programs `if (x == c) return; assert(x OP y != k)` (EQ / ISZERO, both jump polarities, x and y re-read "
     "from calldata) whose valid models are executed on the reference EVM (Lean Driver/Evm) as a concrete run of the whole program; CODECOPY/EXTCODECOPY across the end of "
-    "concrete code over input-dirtied memory followed by an assertion on the zero-filled part, judged by the same concrete replay; the real solve_end_to_end + callback flow with --dump-smt-directory for same-named functions / restarting path ids / a rerun "
+    "concrete code over input-dirtied memory followed by an assertion on the zero-filled part, judged by the same concrete replay; caller+helper (returning 0/1/4/31/32 bytes, CALL and STATICCALL) and the identity precompile with "
+    "short input, output window over a pre-set word (constant or input) and a failure when x equals the word afterwards, same replay; the real solve_end_to_end + callback flow with --dump-smt-directory for same-named functions / restarting path ids / a rerun "
     "into the same directory (every valid model replayed on THIS path's conditions), plus synthetic "
     "outputs (layout/whitespace variants, piped names, short names, duplicates, junk, first-line variants) through the real "
     "from_result / parse_model_str / is_model_valid / _solve_end_to_end_callback vs the Lean model; a case is distinct by its text."
@@ -665,6 +666,74 @@ def correspond(ctx):
             K.close_function_ctx(gf)
         # the passing side must exist concretely too (sanity of the program itself): x = 1
         queue_replay(code, 1, 2, "SANITY:" + desc)
+
+    # calls whose return data is shorter than the output window: the rest of the window keeps what memory held before the call.
+    # caller: memory[0:32] := W (constant or input y); call(helper | identity precompile) with output window (0, 32); fail when x == mload(0).
+    from halmos.sevm import con_addr
+    from vlib import sevmdrv
+    from halmos.bitvec import HalmosBitVec as HBV
+    from halmos.bytevec import ByteVec as HByteVec
+
+    HELPER = 0x2000
+    pat = int.from_bytes(bytes(range(0xA1, 0xA1 + 32)), "big")
+    Wc = int.from_bytes(bytes([0x11] * 32), "big")
+    call_cases = [("helper", 1, "const"), ("helper", 4, "const"), ("helper", 31, "const"), ("helper", 32, "const"), ("helper", 1, "input"), ("helper", 0, "const"),
+                  ("identity", 1, "const"), ("identity", 31, "input"), ("helper-static", 4, "const")]
+    for ci, (kind, nret, pre) in enumerate(call_cases):
+        callee = K.asm([("push", pat), ("push", 0), "MSTORE", ("push", nret), ("push", 0), "RETURN"])
+        items = (ly if pre == "input" else [("push", Wc)]) + [("push", 0), "MSTORE"]
+        if kind == "identity":
+            # input of the precompile: the first nret bytes of memory[64:]; memory[64:96] := pattern
+            items += [("push", pat), ("push", 64), "MSTORE", ("push", 32), ("push", 0), ("push", nret), ("push", 64), ("push", 0), ("push", 4), "GAS", "CALL", "POP"]
+        elif kind == "helper-static":
+            items += [("push", 32), ("push", 0), ("push", 0), ("push", 0), ("push", HELPER), "GAS", "STATICCALL", "POP"]
+        else:
+            items += [("push", 32), ("push", 0), ("push", 0), ("push", 0), ("push", 0), ("push", HELPER), "GAS", "CALL", "POP"]
+        items += [("push", 0), "MLOAD"] + lx + ["EQ", ("push", "FAIL"), "JUMPI", "STOP", ("label", "FAIL"), ("push", 0), ("push", 0), "REVERT"]
+        code = K.asm(items)
+        desc = f"memory[0:32] := {'y' if pre == 'input' else '0x1111..'}; {kind} call returning {nret} byte(s) into window (0,32); fail when x == mload(0)"
+        sevm_, sargs = sevmdrv.mk_sevm()
+        cd = HByteVec()
+        for v in eng2.vars:
+            cd.append(HBV(v))
+        try:
+            ex0 = sevmdrv.mk_ex(sevm_, sargs, code, calldata=cd, this=con_addr(evmdiff.MAIN), extra_code={con_addr(HELPER): callee})
+            exs = list(sevm_.run(ex0))
+        except Exception as e:
+            ctx.count(f"engine-error:call:{type(e).__name__}")
+            continue
+        failing = [ex for ex in exs if ex.context.output.error is not None and type(ex.context.output.error).__name__ == "Revert"]
+        ctx.case(f"shortret|{desc}", nontrivial=True)
+        ctx.count(f"shortret:{kind}:{nret}:paths={len(exs)}:failing={len(failing)}")
+        gargs = eng.args(solver_command=z3bin if ci % 2 else f"{yices} --smt2-model-format --bvconst-in-decimal", solver_timeout_assertion=6.0)
+        for fx in failing:
+            gf = K.mk_function_ctx(gargs, "test", "RD")
+            gpc = K.path_ctx(gargs, ci, gf.solving_ctx, fx.path.to_smt2(gargs))
+            gout = solve_end_to_end(gpc)
+            gf.call_sequences[ci] = ""
+            gh = CounterexampleHandler(ctx=gf, is_invariant=False, is_probe=False, flamegraph_enabled=False, potential_flamegraphs={}, submitted_futures=[])
+            gfut = Future()
+            gfut.set_result(gout)
+            with contextlib.redirect_stdout(io.StringIO()), contextlib.redirect_stderr(io.StringIO()):
+                gh._solve_end_to_end_callback(gfut, ex=None, path_ctx=gpc, description=None)
+            gkind = gout.result if isinstance(gout.result, str) else str(gout.result)
+            ctx.count(f"shortret:{kind}:{gkind}:{'valid' if gf.valid_counterexamples else 'invalid' if gf.invalid_counterexamples else 'none'}")
+            for m in gf.valid_counterexamples:
+                vals = {v.full_name[:3]: v.value for v in m.model.values()}
+                if kind == "identity":
+                    # the reference EVM has no precompiles: judge by hand (identity returns its nret input bytes; the rest of the window is kept)
+                    wv = (vals.get("p_y", 0) if pre == "input" else Wc).to_bytes(32, "big")
+                    want_word = int.from_bytes(pat.to_bytes(32, "big")[:nret] + wv[nret:], "big")
+                    ctx.count(f"shortret:identity:model-word-{'ok' if vals.get('p_x', 0) == want_word else 'wrong'}")
+                    if vals.get("p_x", 0) != want_word:
+                        ctx.violation("valid-counterexample-does-not-reach-failure[identity-precompile-short-return]",
+                                      f"{desc}: valid counterexample x={hex(vals.get('p_x', 0))}, y={hex(vals.get('p_y', 0))}, but after the call memory[0:32] is "
+                                      f"{hex(want_word)} on the EVM", {"kind": "shortret", "case": [kind, nret, pre]})
+                    continue
+                scn = evmdiff.Scenario(contracts={evmdiff.MAIN: code, HELPER: callee}, nargs=2, selector=b"", name=desc)
+                inp = evmdiff.Inputs(args=[vals.get("p_x", 0), vals.get("p_y", 0)], caller=0xCA11E4, origin=0x0419, value=0, balances={}, baldefault=0)
+                replay_jobs.append((scn, inp, f"{desc}: valid counterexample x={hex(vals.get('p_x', 0))}, y={hex(vals.get('p_y', 0))}"))
+            K.close_function_ctx(gf)
 
     if replay_jobs:
         for (scn, inp, desc), res in zip(replay_jobs, evmdiff.run_concrete_batch(ctx, [(a, b) for a, b, _ in replay_jobs])):
